@@ -175,18 +175,18 @@ def runFinalize (sub : Sub) (sc : Script) (cfg : Cfg) (x : Ctx) (s : St) : Optio
   | .err _ s' => some s'
   | .oof => none
 
-/-- the `try / except BaseException / finally` skeleton shared by `Event._trigger`
-and `Machine._can_trigger`'s error routing -/
-def guarded (sub : Sub) (sc : Script) (cfg : Cfg) (x : Ctx) (body : R Bool) : R Bool :=
-  let afterBody : R Bool :=
-    match body with
-    | .ok b s => .ok b s
-    | .err e s =>
-      match cfg.onException with
-      | [] => .err e s
-      | hs => (callbacks sub sc .onException x hs s).bind fun _ s' => .ok false s'
-    | .oof => .oof
-  match afterBody with
+/-- `except BaseException as err:` — route to `on_exception` handlers when there are any (the event
+then returns its `result`, still False), re-raise otherwise -/
+def exceptClause (sub : Sub) (sc : Script) (cfg : Cfg) (x : Ctx) : R Bool → R Bool
+  | .ok b s => .ok b s
+  | .err e s =>
+    match cfg.onException with
+    | [] => .err e s
+    | hs => (callbacks sub sc .onException x hs s).bind fun _ s' => .ok false s'
+  | .oof => .oof
+
+/-- `finally:` — finalize callbacks run whatever happened; their own exception is swallowed -/
+def finallyClause (sub : Sub) (sc : Script) (cfg : Cfg) (x : Ctx) : R Bool → R Bool
   | .ok b s => match runFinalize sub sc cfg x s with
     | some s' => .ok b s'
     | none => .oof
@@ -194,6 +194,10 @@ def guarded (sub : Sub) (sc : Script) (cfg : Cfg) (x : Ctx) (body : R Bool) : R 
     | some s' => .err e s'
     | none => .oof
   | .oof => .oof
+
+/-- the `try / except BaseException / finally` skeleton shared by `Event._trigger` and its copies -/
+def guarded (sub : Sub) (sc : Script) (cfg : Cfg) (x : Ctx) (body : R Bool) : R Bool :=
+  finallyClause sub sc cfg x (exceptClause sub sc cfg x body)
 
 /-- `Event._trigger` (one event, processed now). Returns `event_data.result`. -/
 def eventTrigger (sub : Sub) (sc : Script) (cfg : Cfg) (ts : List Trans) (x : Ctx) (s : St) : R Bool :=
